@@ -254,3 +254,13 @@ def msb_end_sym(eng, b, i):
 def set_field_sym(eng, obj, name, value):
     eng.set_attr(obj, name.s, value, None)
     return NONE
+
+
+@spec("handling_exception", lambda: False, "the caller is inside an except arm, or a finally arm entered by an exception")
+def handling_exception_sym(eng):
+    f = eng.cur_frame
+    h = False
+    while f is not None and not h:
+        h = f.cur_exc is not None or getattr(f, "in_exc_finally", 0) > 0
+        f = None
+    return VBool(h)
